@@ -166,6 +166,37 @@ add("C20",
     "validate-root-suppression.",
     "machine-checked proof in Coq (decision-logic lemmas) + CLI-vs-library differential on histories")
 
+
+add("C03",
+    "Coq theorems over Model/Footprint.v (path algebra on segment lists, rocfl's path computations, the guards validate_object_root / "
+    "purge_removes, a per-operation predicate `allowed` on file-system calls and a generating model of the calls each operation issues): "
+    "for every operation other than purge of that object, no target of an allowed call lies inside a committed version directory of any "
+    "object, the only entries of an existing object that may be touched are its root inventory, sidecar, declaration and the version "
+    "directory that does not exist yet; purge touches only its own object; every call of the generating model is allowed, for every PREFIX "
+    "of the trace (failure or kill at any call). Correspondence: every mutating system call (strace) of every operation of generated "
+    "histories - also failing operations and EIO/ENOSPC/EACCES/SIGKILL/SIGINT-injected runs - satisfies `allowed` (evaluated in Coq); the "
+    "generating model covers the observed calls of fault-free operations. Search: byte snapshots of every committed version directory "
+    "around every operation; no traced call may target a path inside one.",
+    "Hypotheses (env_ok): the staging root is the default one or a -s directory disjoint from the storage root and all object roots; "
+    "objects are not nested (preserved by the guard). strace sees every mutation (rocfl uses no mmap / io_uring writes). Known finding: "
+    "external mv whose named source lies inside the repository.",
+    "machine-checked proof in Coq (footprint lemmas over all operations and all trace prefixes) + system-call trace correspondence")
+
+add("C12",
+    "Coq theorems over Model/Footprint.v: a relative path without `..` resolves inside its base (witnesses that `..` / absolute escape); "
+    "for EVERY id (the id enters staging paths only through hex digits), accepted logical path and content directory, all staged paths, "
+    "the staged root and the lock file lie strictly below the staging root; if validate_object_root accepts, the object root is strictly "
+    "inside the storage root, outside `extensions`, neither inside nor above any existing object or the staging root; layouts 0003/0004 "
+    "are safe for every id (via C11's map theorem); a refused commit issues calls in the staging area only; operations other than purge "
+    "touch of other objects nothing, of their own object only inventory/sidecar/declaration/new version directory; purge touches no other "
+    "object; every call of the generating model (every prefix) stays within storage root + staging root + named mv sources. "
+    "Correspondence: all traced calls of histories with hostile ids / destinations / content-directory names / --object-root values under "
+    "every layout satisfy `allowed`; the guards agree with the real outcome. Search: normalised path of every mutating call inside the two "
+    "roots, sentinel tree around the roots unchanged, pre-existing objects still valid (rocfl validate + independent validator), refused "
+    "commit changes nothing.",
+    "Hypotheses as C03. Symlinks planted by a third party are out of scope. Known finding: external mv whose named source lies inside the repository.",
+    "machine-checked proof in Coq (containment algebra, guard lemmas, footprint of all operations) + system-call trace correspondence")
+
 NOT_APPLICABLE = []  # filled below for every property without a check yet
 
 ALL = ["C%02d" % i for i in range(1, 21)]
